@@ -40,8 +40,8 @@ type cseries struct {
 
 const caseLabel = "zcase" // sorts after every generated label name
 
-// concrete is one case made concrete: series and requests carry the case label/matcher so that many
-// cases can share one block and one rewrite.
+// concrete is one abstract input made concrete: series and requests carry a case label/matcher so that
+// several inputs can share one block and one rewrite.
 type concrete struct {
 	in     vt.Case
 	key    string
@@ -366,73 +366,101 @@ func randCase(r *rand.Rand, big bool) vt.Case {
 	return vt.Case{"series": series, "reqs": reqs}
 }
 
+// scratchBase prefers a memory-backed directory (block writers fsync every file, which dominates the
+// run time on a busy disk); everything created is removed again.
+func scratchBase(t *testing.T) string {
+	if d, err := os.MkdirTemp("/dev/shm", "verif-c48-"); err == nil {
+		t.Cleanup(func() { os.RemoveAll(d) })
+		return d
+	}
+	return t.TempDir()
+}
+
 // TestC48 rewrites real blocks with compactv2 + WithDeletionModifier and records the samples of the
-// rewritten block. Cases are executed in batches that share one block (each case's series and
-// requests carry a case label), a replayed case runs alone.
+// rewritten block. A case is a group of abstract inputs that share one block and one rewrite (each
+// input's series and requests carry their own case label / case matcher); the group is the unit that
+// is judged and replayed, so any influence of one input's requests on another input's series is part
+// of the judged observation.
 func TestC48(t *testing.T) {
 	tr := vt.Open(t)
 	defer tr.Close()
-	base := t.TempDir()
+	base := scratchBase(t)
 	rnd := vt.Rand()
 	caseID := 0
-	nb := 0
-	runBatch := func(batch []vt.Case) {
-		nb++
-		dir := filepath.Join(base, fmt.Sprint("b", nb))
+	runGroup := func(g vt.Case) {
+		caseID++
+		g = vt.Normalize(g)
+		dir := filepath.Join(base, fmt.Sprint("b", caseID))
 		defer os.RemoveAll(dir)
 		var cs []*concrete
-		for i, c := range batch {
-			cs = append(cs, concretise(vt.Normalize(c), fmt.Sprint("c", i)))
+		jser, jreq := []any{}, []any{}
+		for i, c := range vt.List(g["cases"]) {
+			x := concretise(vt.Case(vt.Map(c)), fmt.Sprint("c", i))
+			cs = append(cs, x)
+			jser = append(jser, x.jser...)
+			jreq = append(jreq, x.jreq...)
 		}
 		res, err := rewrite(dir, cs)
-		for _, c := range cs {
-			caseID++
-			got := map[string]any{"err": "", "series": []any{}}
-			if err != nil {
-				got["err"] = err.Error()
-			} else if s := res[c.key]; s != nil {
-				got["series"] = s
+		got := map[string]any{"err": "", "series": []any{}}
+		if err != nil {
+			got["err"] = err.Error()
+		} else {
+			all := []any{}
+			keys := make([]string, 0, len(res))
+			for k := range res {
+				keys = append(keys, k)
 			}
-			tr.Emit(vt.Event{"ev": "case", "case": caseID, "in": c.in, "kf": "", "series": c.jser, "reqs": c.jreq, "got": got})
+			sort.Strings(keys)
+			for _, k := range keys {
+				all = append(all, res[k]...)
+			}
+			got["series"] = all
 		}
+		tr.Emit(vt.Event{"ev": "case", "case": caseID, "in": g, "kf": "", "n": len(cs), "series": jser, "reqs": jreq, "got": got})
 	}
 	if rc := vt.Replay(t); rc != nil {
-		runBatch([]vt.Case{rc})
+		runGroup(rc)
 		return
 	}
-	var batch []vt.Case
-	add := func(c vt.Case) {
+	var group []any
+	flush := func() {
+		if len(group) > 0 {
+			runGroup(vt.Case{"cases": group})
+			group = nil
+		}
+	}
+	add := func(c vt.Case, size int) {
 		if _, ok := c["scale"]; !ok {
 			c["scale"] = []int{1, 15000}[rnd.Intn(2)]
 		}
 		c["cseed"] = rnd.Int63n(1 << 30)
-		batch = append(batch, c)
-		if len(batch) == 100 {
-			runBatch(batch)
-			batch = nil
+		group = append(group, map[string]any(c))
+		if len(group) >= size {
+			flush()
 		}
 	}
 	for _, c := range vt.TLCCases(t) {
-		add(c)
+		add(c, 100)
 	}
+	flush()
 	if p := os.Getenv("VERIF_CASES_REWRITEMCLABELS"); p != "" {
 		cs, err := vt.ReadNDJSON(p)
 		if err != nil {
 			t.Fatal(err)
 		}
 		for _, c := range cs {
-			add(c)
+			add(c, 100)
 		}
 	}
+	flush()
 	for i, n := 0, vt.Pick(400, 4000); i < n; i++ {
-		add(randCase(rnd, false))
+		add(randCase(rnd, false), 10)
 	}
-	for i, n := 0, vt.Pick(20, 300); i < n; i++ {
-		add(randCase(rnd, true))
+	flush()
+	for i, n := 0, vt.Pick(20, 100); i < n; i++ {
+		add(randCase(rnd, true), 1)
 	}
-	if len(batch) > 0 {
-		runBatch(batch)
-	}
+	flush()
 	if caseID == 0 {
 		t.Fatal("no cases")
 	}
